@@ -9,10 +9,13 @@ def gram(al, be, ga):
 
 
 def valid_cell(rng, oblique=True):
-    """a,b,c in [1,20]; angles in [35,145] (or near 90); Gram determinant >= 0.02"""
+    """a,b,c in [1,20]; angles in [35,145], one draw in five anywhere in [5,175] (or near 90); Gram determinant >= 0.02"""
     while True:
         a, b, c = (round(rng.uniform(1, 20), 3) for _ in range(3))
-        if oblique:
+        if oblique and rng.random() < 0.2:
+            # strongly oblique: any angles in (5, 175) that keep the Gram determinant above the property's bound
+            al, be, ga = (round(rng.uniform(5, 175), 2) for _ in range(3))
+        elif oblique:
             al, be, ga = (round(rng.uniform(35, 145), 2) for _ in range(3))
         else:
             al, be, ga = (round(rng.uniform(80, 100), 2) for _ in range(3))
